@@ -17,6 +17,7 @@ META = {
     'not_decided': ['the contents of any particular array/string after a sequence of operations'],
 }
 META['explanation'] += ' R13.9 no single byte of a text becomes a character unless tested to be ASCII. R13.2 also accepts indexing by lookup (nth from the front under index >= 0, from the back with |index| - 1 under index < 0, not found = index error).'
+META['explanation'] += ' R13.10 the text of an array shows every element every time (no path of Display::fmt answers for an array without reading its elements, no turn of the element loop skips the element). R13.7 also: no arm but OpCode::Const lets a pooled string out.'
 
 UNIT_OF_LEN = [('alloc::vec::Vec::<T, A>::len', 'elements'), ('core::slice::<impl [T]>::len', 'elements'), ('::count', 'characters'),
                ('core::str::<impl str>::len', 'bytes'), ('alloc::string::String::len', 'bytes')]
